@@ -31,7 +31,7 @@
                            reached its trigger (true when delay >= 0 and the loop is not
                            blocked, except for the exact tie send instant = tick instant with
                            the tick taken first). *)
-From Got Require Import Base Heap Delayed DelayedProofs.
+From Got Require Import Base Heap Delayed DelayedProofs DelayedInbox DelayedInboxProofs.
 Require Import Permutation Sorted.
 Local Open Scope Z_scope.
 
@@ -144,3 +144,45 @@ Definition c10_check : bool :=
 
 Example c10_nonvacuous : c10_check = true.
 Proof. vm_compute. reflexivity. Qed.
+
+
+(* ---------------------------------------------------------------- the hand-over channel (models/DelayedInbox.v) *)
+
+(* "received before the tick" (dl_timely), the hypothesis of the timing theorems above, is not something a caller
+   can observe; "SENT before the tick" is.  For the code that takes in the tasks already handed over before it
+   handles a tick (fix a5a97ba), sent-before implies received-before: the inbox-level history expands to a
+   loop-level history that is timely. *)
+Theorem delayed_sent_before_tick_is_received_before :
+  forall t0 evs, dli_sends_timely t0 evs = true -> dl_timely t0 (dli_expand DliFixed [] evs) = true.
+Proof. exact dli_sent_before_tick_timely. Qed.
+Print Assumptions delayed_sent_before_tick_is_received_before.
+
+(* hence: less than one tick late for every task handed over before any tick that had reached its deadline *)
+Theorem delayed_handed_over_less_than_one_tick_late :
+  forall I inv, dl_pq_ok I inv -> forall caps P t0 evs sf outs t a,
+    let h := dli_expand DliFixed [] evs in
+    dl_run I (dl_init I caps) h = Some (sf, outs) ->
+    dl_roomy I (dl_init I caps) h = true -> dl_spaced P t0 h = true -> dli_sends_timely t0 evs = true ->
+    In (DlPlaced t a) outs -> a - dl_trig t < P.
+Proof. exact dli_less_than_one_tick_late. Qed.
+Print Assumptions delayed_handed_over_less_than_one_tick_late.
+
+Theorem delayed_handed_over_release_sorted :
+  forall I inv, dl_pq_ok I inv -> forall caps t0 evs sf outs,
+    dl_run I (dl_init I caps) (dli_expand DliFixed [] evs) = Some (sf, outs) -> dli_sends_timely t0 evs = true ->
+    StronglySorted dl_le (dl_forwarded outs).
+Proof. exact dli_release_sorted. Qed.
+Print Assumptions delayed_handed_over_release_sorted.
+
+(* the code before a5a97ba handled a tick without looking at the channel: a task (deadline 5) handed over before the
+   tick at 10, the select taking the ticker first, is released by the tick at 20: 15 after its deadline with ticks 10
+   apart; the same history on the fixed code releases it at 10 *)
+Theorem delayed_orig_tick_before_inbox_refuted :
+  let t := {| dl_id := 1; dl_trig := 5; dl_q := 0 |} in
+  let evs := [DliSend t; DliTick 10; DliRecv; DliTick 20] in
+  dli_sends_timely 0 evs = true /\
+  (exists sf, dli_run_sorted DliOrig [(0, 4%nat)] evs = Some (sf, [DlPlaced t 20])) /\
+  (exists sf, dli_run_sorted DliFixed [(0, 4%nat)] evs = Some (sf, [DlPlaced t 10])) /\
+  dl_spaced 10 0 (dli_expand DliOrig [] evs) = true /\ ~ (20 - dl_trig t < 10).
+Proof. exact dli_orig_refuted. Qed.
+Print Assumptions delayed_orig_tick_before_inbox_refuted.
